@@ -17,6 +17,9 @@
 (*   allmark : the same with the marker bit set on every packet            *)
 (*   fillend : start, as many middle fragments as fit under the cap, then   *)
 (*             the fragment that ends the frame and crosses the cap        *)
+(*   quirk   : a single-packet unit with an Annex-B start code spliced into *)
+(*             its payload (some decoders switch to a tolerant mode for    *)
+(*             the rest of the stream when they see one)                   *)
 (*   hdronly : a middle fragment cut right after its payload header: it    *)
 (*             adds no data (Middle with nothing to keep, or refused)      *)
 (* TLC checks  retained <= Cap + 1  and  returned <= Cap + 1  in every     *)
@@ -48,6 +51,7 @@ React(c) ==
     [] c = "sameseq" -> Refuse
     [] c \in {"valid", "nomark"} -> (Start \/ Middle \/ End)
     [] c = "allmark" -> (Start \/ Middle \/ End \/ Single)
+    [] c = "quirk" -> (Single \/ Refuse)
     [] c = "fillend" -> (End \/ Refuse)
     [] c = "hdronly" -> (Refuse \/ (UNCHANGED retained /\ lastOut' = 0))
     [] OTHER -> (Start \/ Middle \/ End \/ Single \/ Refuse)     \* garbage
@@ -64,5 +68,5 @@ Spec == Init /\ [][Next]_vars
 Bounded == retained <= Cap + 1 /\ lastOut <= Cap + 1
 
 AllClasses == {"start", "middle", "end", "single", "valid", "trunc", "random", "hdrkeep",
-               "bitflip", "sameseq", "newts", "nomark", "allmark", "hdronly", "fillend"}
+               "bitflip", "sameseq", "newts", "nomark", "allmark", "hdronly", "fillend", "quirk"}
 =============================================================================
